@@ -283,21 +283,38 @@ class CFG:
         return self._cd
 
     def guards(self, stmt, *, include_exc: bool = False) -> Set[Tuple[object, object]]:
-        """Transitive control dependences of a statement: {(branch node id, label)}."""
+        """Transitive control dependences of a statement: {(branch node id, label)}.
+
+        Breadth-first from the statement; for each branch node only the labels found at the
+        smallest distance are kept, so that a dependence that wraps around a loop back edge
+        ("the test was false in an earlier iteration") does not cancel the one that holds in
+        the current iteration.
+        """
         start = stmt if isinstance(stmt, (int, str)) else self.nid(stmt)
-        out, todo, seen = set(), [start], set()
-        while todo:
-            n = todo.pop()
-            if n in seen:
-                continue
-            seen.add(n)
-            for (b, lab) in self.control_deps.get(n, ()):
-                if lab == 'exc' and not include_exc:
-                    continue
-                if b == n and lab in ('loop',):
-                    pass
-                out.add((b, lab))
-                todo.append(b)
+        dist: Dict[object, int] = {}
+        out: Set[Tuple[object, object]] = set()
+        frontier = [start]
+        seen = {start}
+        d = 0
+        while frontier:
+            d += 1
+            nxt = []
+            found: Dict[object, Set] = {}
+            for n in frontier:
+                for (b, lab) in self.control_deps.get(n, ()):
+                    if lab == 'exc' and not include_exc:
+                        continue
+                    if b in dist and dist[b] < d:
+                        continue
+                    found.setdefault(b, set()).add(lab)
+            for b, labs in found.items():
+                dist[b] = d
+                for lab in labs:
+                    out.add((b, lab))
+                if b not in seen:
+                    seen.add(b)
+                    nxt.append(b)
+            frontier = nxt
         return out
 
     def guard_literals(self, stmt) -> Set[Tuple[str, bool]]:
